@@ -225,6 +225,13 @@ class Sym:
             for _ in range(o):
                 r = r * self
             return r
+        if isinstance(o, float) and o == 0.5:
+            # square root of a non-negative real: the non-negative r with r*r == x
+            c = ctx()
+            r = c.real(c.fresh_name('sqrt'))
+            if c.concrete is None:
+                c.assume(And(r >= 0, r * r == self))
+            return r
         return _opaque_pow(self, o)
 
     def __rpow__(self, o):
